@@ -654,6 +654,8 @@ def run_trace(ctx, inp, diff=True):
     cache0 = {int(k): v for k, v in (inp.get("cache0") or {}).items()}
     if cache0:
         kw["cache"] = {keys[i]: v for i, v in cache0.items()}       # a caller-supplied (warm) cache
+    elif inp.get("empty_cache_arg"):
+        kw["cache"] = {}                                            # an explicitly EMPTY caller-supplied cache (cache={})
     real = controlled_run(dsk, real_req, nw, cs, chooser, idof, **kw)
     real["exec_log"] = exec_log()
     real["branching"] = branching
